@@ -24,7 +24,7 @@ SPEC = {
 
 def plan(tier, seed):
     n = 16 if tier == "quick" else 64
-    per = 260 if tier == "quick" else 1200
+    per = 1500 if tier == "quick" else 6000
     return [{"seed": seed, "shard": i, "nshards": n, "n": per, "tier": tier} for i in range(n)]
 
 
@@ -220,14 +220,18 @@ def check_case(pt, acc, case):
 def gen_case(rng, shapes, i):
     from algosdk import abi as sabi
     from .c06 import _nodes, _val_to_json
+    boundary = False
     if shapes and i < len(shapes):
         tstr = shapes[i]
+    elif rng.random() < .2:
+        tstr = abigen.boundary_shape(rng)
+        boundary = True
     else:
         tstr = abigen.rand_type(rng, maxdepth=rng.choice([1, 2, 3, 3, 4]))
     st = abigen.sdk(tstr)
     for _ in range(20):
         val = abigen.rand_val(rng, st)
-        if _nodes(val) <= 150:
+        if _nodes(val) <= (800 if boundary else 150):
             break
     else:
         tstr = "(uint64,bool[3],string[])"
